@@ -2,6 +2,7 @@ import AtsimModel.Model.Eam
 import Mathlib.Data.String.Basic
 import AtsimModel.Lemmas.KernelQ
 import AtsimModel.Lemmas.TokSem
+import AtsimModel.Props.C03
 import AtsimModel.Props.C05
 /-!
 # C04 — Finnis-Sinclair densities land in the slot the consumer reads for that pair
@@ -478,6 +479,22 @@ theorem C04_code_tabeam_fs_missing (els : List El) (pairs : List PairDecl) (a b 
   have hm : densOfOpt (toEam a) b.sp = none := by
     rw [TabeamFsWriter.densOfOpt_toEam, hmiss]; rfl
   rw [TabeamFsWriter.fs_loop1_missing dr drho _ _ _ _ _ _ _ _ (toEam a) b.sp hb' hm _ _ (List.mem_map.2 ⟨a, ha, rfl⟩)]
+  rfl
+
+
+/-! ## The code itself: the whole Finnis-Sinclair setfl file (`writeSetFLFinnisSinclair`) -/
+
+open Atsim.Gen.Logic Atsim.TokSem in
+/-- **code tie (whole file, eam/fs)**: header as for eam/alloy; in the block of element `e`, for each element `other` in header order, the `nr` values of
+    `other`'s dictionary entry for `e` - the model's `setfl true` (the slot `C04_setfl_slot` is about) -/
+theorem C04_code_write_fs (I : String → Nat → Rat → Rat) (hI : ZeroFn I)
+    (nrho : Nat) (drho : Rat) (nr : Nat) (dr : Rat) (cutoff : Option Rat) (els : List El) (pairs : List PairDecl) (comments : List String) (out : List Tok) :
+    streamSem I (setfl_write_fs (nrho : Int) drho (nr : Int) dr (els.map toEam) (pairs.map toPot) out comments cutoff) =
+      streamSem I out ++ setflSem I comments (effCutoff cutoff nr dr) (setfl true nrho drho nr dr els pairs) := by
+  have := Atsim.C03.SetflWriter.write_cutoff_sem I hI true nrho drho nr dr cutoff els pairs comments out setfl_density_fs
+    (by intro e o; rw [C04_code_density_fs I hI]; simp [elBlock])
+  rw [← this]
+  unfold setfl_write_fs
   rfl
 
 
